@@ -355,8 +355,10 @@ package common
 //@ ufun v_slashed(ValI) bool
 //@ ufun v_act_err(ValI) bool
 //@ ufun v_act(ValI) int
+// withdrawable epochs are versioned by the count of their writes (n_wd_write), like exit epochs
+//@ ghost n_wd_write int
 //@ ufun v_wd_err(ValI) bool
-//@ ufun v_wd(ValI) int
+//@ ufun v_wd(int, ValI) int
 
 //@ func (s BeaconState) Validators() (r, err)
 //@   trusted
@@ -386,7 +388,7 @@ package common
 //@   trusted
 //@   opt noalloc
 //@   ensures (err != nil) == v_wd_err(v)
-//@   ensures err == nil ==> r == v_wd(v)
+//@   ensures err == nil ==> r == v_wd(n_wd_write, v)
 
 //@ ufun v_wcred_err(ValI) bool
 //@ ufun v_wcred(ValI) Root32
@@ -831,10 +833,34 @@ package common
 //@   trusted
 //@   assigns ghost(n_val_write), ghost(n_set_exit), ghost(set_exit_v), ghost(set_exit_val)
 //@   ensures n_val_write == old(n_val_write) + 1 && n_set_exit == old(n_set_exit) + 1 && set_exit_v == v && set_exit_val == ep
+//@   ensures err == nil ==> v_exit(n_val_write, v) == ep
+//@   ensures forall w ValI :: {v_exit(n_val_write, w)} w != v ==> v_exit(n_val_write, w) == v_exit(old(n_val_write), w)
+// activation-eligibility epochs as a versioned view (point updates); activation epochs: the setter is recorded
+//@ ghost n_aelig_write int
+//@ ufun v_aelig(int, ValI) int
+//@ func (v Validator) SetActivationEligibilityEpoch(ep) err
+//@   trusted
+//@   assigns ghost(n_aelig_write)
+//@   ensures n_aelig_write == old(n_aelig_write) + 1
+//@   ensures err == nil ==> v_aelig(n_aelig_write, v) == ep
+//@   ensures forall w ValI :: {v_aelig(n_aelig_write, w)} w != v ==> v_aelig(n_aelig_write, w) == v_aelig(old(n_aelig_write), w)
+//@ ghost n_set_act int
+//@ ghost last_set_act_v ValI
+//@ ghost last_set_act_val int
+//@ func (v Validator) SetActivationEpoch(ep) err
+//@   trusted
+//@   assigns ghost(n_set_act), ghost(last_set_act_v), ghost(last_set_act_val)
+//@   ensures n_set_act == old(n_set_act) + 1 && last_set_act_v == v && last_set_act_val == ep
+// the exit queue as the ejections advance it: (epoch, churn) after j ejections, starting from (e0, c0) with c0 < lim
+//@ defrec ejq_churn(c0 int, lim int, j int) int = ite(j <= 0, c0, ite(ejq_churn(c0, lim, j - 1) + 1 >= lim, 0, ejq_churn(c0, lim, j - 1) + 1))
+//@ defrec ejq_epoch(e0 int, c0 int, lim int, j int) int = ite(j <= 0, e0, ejq_epoch(e0, c0, lim, j - 1) + ite(ejq_churn(c0, lim, j - 1) + 1 >= lim, 1, 0))
+//@ lemma ejq_epoch_bound [C02, induct=j, manual]: forall j int, e0 int, c0 int, lim int :: {ejq_epoch(e0, c0, lim, j)} e0 <= ejq_epoch(e0, c0, lim, j) && ejq_epoch(e0, c0, lim, j) <= e0 + max(j, 0)
 //@ func (v Validator) SetWithdrawableEpoch(ep) err
 //@   trusted
-//@   assigns ghost(n_val_write), ghost(n_set_wd), ghost(set_wd_v), ghost(set_wd_val)
-//@   ensures n_val_write == old(n_val_write) + 1 && n_set_wd == old(n_set_wd) + 1 && set_wd_v == v && set_wd_val == ep
+//@   assigns ghost(n_wd_write), ghost(n_set_wd), ghost(set_wd_v), ghost(set_wd_val)
+//@   ensures n_wd_write == old(n_wd_write) + 1 && n_set_wd == old(n_set_wd) + 1 && set_wd_v == v && set_wd_val == ep
+//@   ensures err == nil ==> v_wd(n_wd_write, v) == ep
+//@   ensures forall w ValI :: {v_wd(n_wd_write, w)} w != v ==> v_wd(n_wd_write, w) == v_wd(old(n_wd_write), w)
 // reward / penalty vectors (C02): NewDeltas hands back two fresh zeroed lists of the asked length (inlined at its callers)
 //@ func NewDeltas(validatorCount) r
 //@   property C02
@@ -1001,6 +1027,24 @@ package common
 //@   trusted
 //@   assigns ghost(n_set_wcred), ghost(set_wcred_v), ghost(set_wcred_val)
 //@   ensures n_set_wcred == old(n_set_wcred) + 1 && set_wcred_v == v && set_wcred_val == out
+// slashing a validator (C01): the flag, the slashings vector entry and the proposer's share of the whistleblower reward
+//@ ghost n_make_slashed int
+//@ ghost made_slashed_v ValI
+//@ func (v Validator) MakeSlashed() err
+//@   trusted
+//@   assigns ghost(n_make_slashed), ghost(made_slashed_v)
+//@   ensures n_make_slashed == old(n_make_slashed) + 1 && made_slashed_v == v
+//@ ghost n_add_slashing int
+//@ ghost add_slashing_epoch int
+//@ ghost add_slashing_val int
+//@ func (sl Slashings) AddSlashing(epoch, add) err
+//@   trusted
+//@   assigns ghost(n_add_slashing), ghost(add_slashing_epoch), ghost(add_slashing_val)
+//@   ensures n_add_slashing == old(n_add_slashing) + 1 && add_slashing_epoch == epoch && add_slashing_val == add
+// ForkSettings.CalcProposerShare: assumed to be a pure function of the settings object and the reward
+//@ ufun fs_share(FSetP, int) int
+//@ fieldfn ForkSettings.CalcProposerShare = fs_share
+//@ define exq_epoch(ver int, reg RegI, n int, base int, lim int) int = ite(exq_count(ver, reg, n, exq_max(ver, reg, n, base)) >= lim, exq_max(ver, reg, n, base) + 1, exq_max(ver, reg, n, base))
 // the exit queue (initiate_validator_exit): the latest exit epoch among validators that have one, or the
 // activation-exit epoch of the current epoch when that is later; exq_count counts the exits at an epoch
 //@ defrec exq_max(ver int, reg RegI, i int, base int) int = ite(i <= 0, base, ite(v_exit(ver, reg_val(reg, i - 1)) != FAR_FUTURE_EPOCH && v_exit(ver, reg_val(reg, i - 1)) > exq_max(ver, reg, i - 1, base), v_exit(ver, reg_val(reg, i - 1)), exq_max(ver, reg, i - 1, base)))
@@ -1146,6 +1190,13 @@ package common
 //@   assigns ghost(n_set_jbits), ghost(set_jbits)
 //@   ensures n_set_jbits == old(n_set_jbits) + 1 && set_jbits == bits
 
+// get_block_root_at_slot (the modulo indexing and the range of slots it is meaningful for live behind BatchRoots)
+//@ func GetBlockRootAtSlot(spec, state, slot) (r, err)
+//@   property C02 C03
+//@   opt noalloc
+//@   requires state != nil
+//@   ensures err == nil ==> !st_broots_err(state) && r == roots_at(st_broots(state), slot)
+
 // get_block_root(state, epoch) = block_roots[start_slot(epoch)] (the modulo indexing lives behind BatchRoots)
 //@ func GetBlockRoot(spec, state, epoch) (r, err)
 //@   property C02
@@ -1196,6 +1247,29 @@ package common
 //@   opt noalloc
 //@   ensures r == epoch_root(e)
 
+// per-slot root caching (C02): the state's hash-tree-root is a function of the state object and of how many of the
+// writes recorded here had happened (so "hashed before it was touched" can be said); the root batches get a
+// versioned point-update view next to the read model roots_at (process_slot only writes them)
+//@ ufun st_htr(StateI, int) RootT
+//@ ghost n_set_root int
+//@ ufun roots_now(int, RootsI, int) RootT
+//@ ufun st_sroots_err(StateI) bool
+//@ ufun st_sroots(StateI) RootsI
+//@ func (s BeaconState) HashTreeRoot(fn) r
+//@   trusted
+//@   opt noalloc
+//@   ensures r == st_htr(s, n_set_root + n_set_lhdr)
+//@ func (s BeaconState) StateRoots() (r, err)
+//@   trusted
+//@   opt noalloc
+//@   ensures (err != nil) == st_sroots_err(s)
+//@   ensures err == nil ==> r == st_sroots(s) && r != nil
+//@ func (b BatchRoots) SetRoot(slot, v) err
+//@   trusted
+//@   assigns ghost(n_set_root)
+//@   ensures n_set_root == old(n_set_root) + 1
+//@   ensures err == nil ==> roots_now(n_set_root, b, slot) == v
+//@   ensures forall c RootsI, k int :: {roots_now(n_set_root, c, k)} c != b ==> roots_now(n_set_root, c, k) == roots_now(old(n_set_root), c, k)
 //@ ghost n_set_lhdr int
 //@ ghost set_lhdr HeaderT
 //@ func (s BeaconState) SetLatestBlockHeader(h) err
@@ -1230,7 +1304,7 @@ package common
 //@   ensures c01_store: err == nil ==> n_set_lhdr == old(n_set_lhdr) + 1 && set_lhdr.Slot == old(header.Slot) && set_lhdr.ProposerIndex == old(header.ProposerIndex) && set_lhdr.ParentRoot == old(header.ParentRoot) && set_lhdr.BodyRoot == old(header.BodyRoot) && (forall k :: 0 <= k && k < 32 ==> set_lhdr.StateRoot[k] == 0)
 
 //@ func ProcessSlot(ctx, unused1, state) err
-//@   property C18
+//@   property C18 C02
 //@   panics off
 //@   requires ctx != nil
 //@   opt weakcalls
@@ -1243,6 +1317,11 @@ package common
 //@   loop *
 //@     invariant ctx_t >= old(ctx_t) && (old(ctx_seen) || !ctx_seen)
 //@     invariant ctx_t > old(ctx_t) ==> !ctx_cancelled(ctx, old(ctx_t))
+//@   assigns ghost(n_set_root)
+//@   ensures c02_state_root: err == nil && state != nil && st_sroots(state) != st_broots(state) ==> !st_slot_err(state) && !st_sroots_err(state) && n_set_root == old(n_set_root) + 2 && roots_now(n_set_root, st_sroots(state), st_slot(state)) == st_htr(state, old(n_set_root + n_set_lhdr))
+//@   ensures c02_header_completed: err == nil && state != nil && (forall k :: 0 <= k && k < 32 ==> old(st_latest(state).StateRoot[k]) == 0) ==> n_set_lhdr == old(n_set_lhdr) + 1 && set_lhdr.StateRoot == st_htr(state, old(n_set_root + n_set_lhdr)) && set_lhdr.Slot == old(st_latest(state).Slot) && set_lhdr.ProposerIndex == old(st_latest(state).ProposerIndex) && set_lhdr.ParentRoot == old(st_latest(state).ParentRoot) && set_lhdr.BodyRoot == old(st_latest(state).BodyRoot)
+//@   ensures c02_header_kept: err == nil && state != nil && !(forall k :: 0 <= k && k < 32 ==> old(st_latest(state).StateRoot[k]) == 0) ==> n_set_lhdr == old(n_set_lhdr)
+//@   ensures c02_block_root: err == nil && state != nil && st_sroots(state) != st_broots(state) ==> !st_broots_err(state) && roots_now(n_set_root, st_broots(state), st_slot(state)) == header_root(BeaconBlockHeader(old(st_latest(state).Slot), old(st_latest(state).ProposerIndex), old(st_latest(state).ParentRoot), ite((forall k :: 0 <= k && k < 32 ==> old(st_latest(state).StateRoot[k]) == 0), st_htr(state, old(n_set_root + n_set_lhdr)), old(st_latest(state).StateRoot)), old(st_latest(state).BodyRoot)))
 //@   assigns ghost(n_set_lhdr), ghost(set_lhdr)
 
 //@ func ProcessSlots(ctx, spec, epc, state, slot) err
@@ -1265,10 +1344,12 @@ package common
 //@   assigns ghost(n_set_score)
 //@   assigns ghost(n_biter), ghost(biter_pos), ghost(biter_reg), ghost(n_set_eb)
 //@   assigns ghost(n_set_bal)
+//@   assigns ghost(n_aelig_write), ghost(n_set_act), ghost(last_set_act_v), ghost(last_set_act_val)
+//@   assigns ghost(n_set_root)
 //@   assigns ghost(n_eth1_reset), ghost(n_slash_reset), ghost(last_slash_reset), ghost(n_set_mix), ghost(last_set_mix_epoch), ghost(last_set_mix), ghost(n_hist_update)
 //@   assigns ghost(n_set_lhdr), ghost(set_lhdr)
 //@   assigns ghost(n_set_prevjust), ghost(set_prevjust), ghost(n_set_curjust), ghost(set_curjust), ghost(n_set_fin), ghost(set_fin), ghost(n_set_jbits), ghost(set_jbits)
-//@   assigns ghost(n_viter), ghost(viter_pos), ghost(viter_reg), ghost(n_val_write), ghost(n_set_exit), ghost(set_exit_v), ghost(set_exit_val), ghost(n_set_wd), ghost(set_wd_v), ghost(set_wd_val)
+//@   assigns ghost(n_viter), ghost(viter_pos), ghost(viter_reg), ghost(n_val_write), ghost(n_wd_write), ghost(n_set_exit), ghost(set_exit_v), ghost(set_exit_val), ghost(n_set_wd), ghost(set_wd_v), ghost(set_wd_val)
 
 //@ func StateTransition(ctx, spec, epc, state, benv, validateResult) err
 //@   property C18
@@ -1290,11 +1371,13 @@ package common
 //@   assigns ghost(n_set_wcred), ghost(set_wcred_v), ghost(set_wcred_val)
 //@   assigns ghost(n_set_bal)
 //@   assigns ghost(n_set_nwi), ghost(set_nwi), ghost(n_set_nwvi), ghost(set_nwvi)
+//@   assigns ghost(n_aelig_write), ghost(n_set_act), ghost(last_set_act_v), ghost(last_set_act_val)
+//@   assigns ghost(n_set_root)
 //@   assigns ghost(n_eth1_reset), ghost(n_slash_reset), ghost(last_slash_reset), ghost(n_set_mix), ghost(last_set_mix_epoch), ghost(last_set_mix), ghost(n_hist_update)
 //@   assigns ghost(n_set_mix), ghost(last_set_mix_epoch), ghost(last_set_mix)
 //@   assigns ghost(n_set_lhdr), ghost(set_lhdr)
 //@   assigns ghost(n_set_prevjust), ghost(set_prevjust), ghost(n_set_curjust), ghost(set_curjust), ghost(n_set_fin), ghost(set_fin), ghost(n_set_jbits), ghost(set_jbits)
-//@   assigns ghost(n_viter), ghost(viter_pos), ghost(viter_reg), ghost(n_val_write), ghost(n_set_exit), ghost(set_exit_v), ghost(set_exit_val), ghost(n_set_wd), ghost(set_wd_v), ghost(set_wd_val)
+//@   assigns ghost(n_viter), ghost(viter_pos), ghost(viter_reg), ghost(n_val_write), ghost(n_wd_write), ghost(n_set_exit), ghost(set_exit_v), ghost(set_exit_val), ghost(n_set_wd), ghost(set_wd_v), ghost(set_wd_val)
 
 //@ func PostSlotTransition(ctx, spec, epc, state, benv, validateResult) err
 //@   property C18 C03
@@ -1319,6 +1402,6 @@ package common
 //@   assigns ghost(n_set_nwi), ghost(set_nwi), ghost(n_set_nwvi), ghost(set_nwvi)
 //@   assigns ghost(n_set_mix), ghost(last_set_mix_epoch), ghost(last_set_mix)
 //@   assigns ghost(n_set_lhdr), ghost(set_lhdr)
-//@   assigns ghost(n_viter), ghost(viter_pos), ghost(viter_reg), ghost(n_val_write), ghost(n_set_exit), ghost(set_exit_v), ghost(set_exit_val), ghost(n_set_wd), ghost(set_wd_v), ghost(set_wd_val)
+//@   assigns ghost(n_viter), ghost(viter_pos), ghost(viter_reg), ghost(n_val_write), ghost(n_wd_write), ghost(n_set_exit), ghost(set_exit_v), ghost(set_exit_val), ghost(n_set_wd), ghost(set_wd_v), ghost(set_wd_val)
 
 // END C18 generated
